@@ -35,6 +35,10 @@ type Ty struct {
 	Elem   *Ty    // ptr, slice, array, map value, chan
 	Key    *Ty    // map key
 	Fields []Field
+	// Blanks[i] is the Go type of a blank `_` field declared just before Fields[i] (i = len(Fields):
+	// after the last one). Blank fields exist in the Go source only: generated code, the wire form and
+	// the model all see the struct without them.
+	Blanks map[int]string
 }
 
 type Decl struct {
@@ -129,11 +133,17 @@ func (t *Ty) Go(env *Env, from string) string {
 			} else {
 				sb.WriteString(" ")
 			}
+			if bt, ok := t.Blanks[i]; ok {
+				sb.WriteString("_ " + bt + "; ")
+			}
 			if f.Embedded {
 				sb.WriteString(f.T.Go(env, from))
 			} else {
 				sb.WriteString(f.Name + " " + f.T.Go(env, from))
 			}
+		}
+		if bt, ok := t.Blanks[len(t.Fields)]; ok && len(t.Fields) > 0 {
+			sb.WriteString("; _ " + bt)
 		}
 		if len(t.Fields) > 0 {
 			sb.WriteString(" ")
